@@ -69,7 +69,7 @@ type Hist struct {
 }
 
 type Op struct {
-	Op    string   `json:"op"` // tick | hist | suspend | write | remove | rename | restart | boot
+	Op    string   `json:"op"` // tick | hist | suspend | write | remove | rename | restart | boot | loop
 	M     int64    `json:"m,omitempty"`
 	Wall  int64    `json:"wall,omitempty"`
 	F     string   `json:"f,omitempty"`
@@ -78,10 +78,20 @@ type Op struct {
 	H     *Hist    `json:"h,omitempty"`
 	C     *Content `json:"c,omitempty"`
 	Style string   `json:"style,omitempty"` // rename | inplace
+	N     int      `json:"n,omitempty"`     // loop: number of ticks to let the daemon's own loop produce
+	Real  bool     `json:"real,omitempty"`  // loop: real clock (thorough tier) instead of a stepped fixed clock
 	// observations
+	Ticks  []TickObs   `json:"ticks,omitempty"` // loop: what each tick of the daemon's loop did
 	Calls  [][2]string `json:"calls"`
 	Alive  bool        `json:"alive"`
 	Synced bool        `json:"synced"`
+}
+
+// TickObs: one tick produced by the daemon's own loop (Scheduler.start: nextTick + timer.Reset)
+type TickObs struct {
+	Calls [][2]string `json:"calls"`
+	At    int64       `json:"at"` // real clock (unix seconds) at which the first call of the tick arrived; 0 = no call in time
+	Ms    int64       `json:"ms"` // real milliseconds since the previous tick (since Start for the first)
 }
 
 type Case struct {
@@ -669,7 +679,9 @@ type fakeClient struct {
 	calls         [][2]string
 	live          bool
 	wall          int64
-	suspCalls     int // entryReader.Read asks once per loaded DAG: tells that a tick has read its entries
+	callTimes     []time.Time // real time of each call since the last endTick
+	firstCallAt   time.Time   // real time of the first call since the last endTick
+	suspCalls     int         // entryReader.Read asks once per loaded DAG: tells that a tick has read its entries
 }
 
 func (f *fakeClient) status(d *dag.DAG) (*model.Status, error) {
@@ -715,7 +727,11 @@ func (f *fakeClient) record(kind string, d *dag.DAG) {
 	}
 	f.mu.Lock()
 	defer f.mu.Unlock()
+	if len(f.calls) == 0 {
+		f.firstCallAt = time.Now()
+	}
 	f.calls = append(f.calls, [2]string{kind, name})
+	f.callTimes = append(f.callTimes, time.Now())
 	if f.live {
 		f.apply(kind, name)
 	}
@@ -755,7 +771,7 @@ func (f *fakeClient) endTick() [][2]string {
 	f.mu.Lock()
 	defer f.mu.Unlock()
 	calls := f.calls
-	f.calls = nil
+	f.calls, f.callTimes = nil, nil
 	if !f.live {
 		started := map[string]bool{}
 		for _, c := range calls {
@@ -939,7 +955,109 @@ func bootOnce(dir string, fc *fakeClient, lg logger.Logger, wall int64) (calls [
 		case <-time.After(time.Millisecond):
 		}
 	}
+	// with the clock fixed at hh:mm:58 the loop arms a 2 s timer for the next minute: on a starved machine that tick
+	// may run before Stop gets through.  Only the calls of the first tick count: those within 400 ms of the first call.
+	fc.mu.Lock()
+	if len(fc.callTimes) == len(fc.calls) && len(fc.calls) > 0 {
+		var keep [][2]string
+		for i, c := range fc.calls {
+			if fc.callTimes[i].Sub(fc.callTimes[0]) < 400*time.Millisecond {
+				keep = append(keep, c)
+			}
+		}
+		fc.calls = keep
+	}
+	fc.mu.Unlock()
 	return fc.endTick(), true
+}
+
+// loopRun lets the daemon's OWN loop (Scheduler.start: run(t); t = nextTick(t); timer.Reset(t.Sub(now()))) produce n
+// consecutive ticks.  Stepped mode: the fixed clock stands 200 ms before the next minute while a tick runs, so the
+// loop arms a 200 ms timer; after each observed tick the driver moves the clock to 200 ms before the minute after
+// next.  A loop that computes a different next tick (or does not truncate) arms a much longer timer: the tick does
+// not arrive within the 2 s allowed and is recorded as empty.  Real mode: the wall clock, one tick per real minute.
+// Every loaded DAG is expected to produce a call at every tick it is scheduled for, so a tick is seen by its calls.
+func loopRun(dir string, fc *fakeClient, lg logger.Logger, op *Op) bool {
+	m0 := op.Wall / 60
+	clock := func(k int64) { scheduler.VerifSetFixedTime(time.Unix((m0+k)*60+59, 800_000_000).UTC()) }
+	if op.Real {
+		scheduler.VerifSetFixedTime(time.Time{})
+		for s := time.Now().Second(); s < 2 || s > 50; s = time.Now().Second() {
+			time.Sleep(200 * time.Millisecond) // keep the boot tick clear of a minute boundary
+		}
+	} else {
+		clock(0)
+	}
+	fc.mu.Lock()
+	fc.calls, fc.callTimes, fc.snap = nil, nil, nil
+	fc.wall = op.Wall
+	fc.mu.Unlock()
+	var sc *scheduler.Scheduler
+	func() {
+		defer func() {
+			if recover() != nil {
+				sc = nil
+			}
+		}()
+		sc = scheduler.New(&config.Config{DAGs: dir, WorkDir: dir, LogDir: dir, Executable: "/bin/false"}, lg, fc)
+	}()
+	if sc == nil {
+		return false
+	}
+	ended := make(chan struct{})
+	go func() {
+		_ = sc.Start(context.Background())
+		close(ended)
+	}()
+	prev := time.Now()
+	for k := 0; k < op.N; k++ {
+		limit := 2 * time.Second
+		if k == 0 {
+			limit = 10 * time.Second
+		}
+		if op.Real && k > 0 {
+			limit = 75 * time.Second
+		}
+		deadline := time.Now().Add(limit)
+		got := false
+		for time.Now().Before(deadline) {
+			fc.mu.Lock()
+			n := len(fc.calls)
+			fc.mu.Unlock()
+			if n > 0 && !jobsRunning() {
+				got = true
+				break
+			}
+			time.Sleep(200 * time.Microsecond)
+		}
+		t := TickObs{Ms: time.Since(prev).Milliseconds()}
+		prev = time.Now()
+		if got {
+			fc.mu.Lock()
+			t.At = fc.firstCallAt.Unix()
+			fc.wall = t.At
+			if !op.Real {
+				fc.wall = (m0+int64(k))*60 + 59
+			}
+			fc.mu.Unlock()
+		}
+		t.Calls = fc.endTick()
+		op.Ticks = append(op.Ticks, t)
+		if !op.Real {
+			time.Sleep(time.Millisecond) // the loop has armed its timer with the clock of this tick
+			clock(int64(k) + 1)
+		}
+	}
+	for i := 0; i < 2000; i++ {
+		sc.Stop()
+		select {
+		case <-ended:
+			i = 2000
+		case <-time.After(time.Millisecond):
+		}
+	}
+	scheduler.VerifSetFixedTime(time.Time{})
+	return true
 }
 
 func waitQuiet(base int) {
@@ -1080,6 +1198,28 @@ func runSeq(c *Case, rs *resume, flush func(i int, op *Op, fc *fakeClient)) {
 			if d != nil {
 				op.Synced = barrier(dir, lg, true)
 			}
+		case "loop":
+			stop()
+			lg = &evLogger{ch: make(chan string, 256)}
+			op.Ticks = nil
+			op.Alive = loopRun(dir, fc, lg, op)
+			if !op.Real {
+				// the stepped clock leaves the driver 200 ms per tick; a starved machine may miss the window once
+				stalled := false
+				for _, t := range op.Ticks {
+					stalled = stalled || len(t.Calls) == 0
+				}
+				if stalled {
+					op.Ticks = nil
+					lg = &evLogger{ch: make(chan string, 256)}
+					op.Alive = loopRun(dir, fc, lg, op)
+				}
+			}
+			booted = op.Alive
+			if flush != nil {
+				flush(i, op, fc)
+			}
+			continue
 		case "boot":
 			// the real Scheduler.Start at wall-clock instant op.Wall: initial scan, watcher, and the immediate first tick
 			// for the minute the daemon believes it is in; the daemon is stopped right after that tick
@@ -1614,6 +1754,17 @@ func fixedSeqs() []Case {
 		cs = append(cs, Case{Kind: "seq", Stream: "fixed-boot", Files: []FileC{f("d0.yaml", only), f("d1.yaml", sv("* * * * *"))},
 			Ops: []Op{{Op: "hist", F: "d0.yaml", H: &hr}, {Op: "suspend", F: "d1.yaml", On: true}, {Op: "boot", Wall: m*60 + 59}}})
 	}
+	// the daemon's own loop over consecutive ticks (nextTick + timer.Reset), clock stepped by the driver: file d<j>
+	// restarts at minute m+j only, so the calls tell which minute each tick of the loop was for
+	for _, mm := range []int64{m, date(2024, 12, 31, 23, 58, 0) / 60, date(2024, 2, 28, 23, 59, 0) / 60, date(2025, 3, 30, 0, 58, 0) / 60} {
+		n := 4
+		var files []FileC
+		for j := 0; j <= n; j++ {
+			t := time.Unix((mm+int64(j))*60, 0).UTC()
+			files = append(files, f(fmt.Sprintf("d%d.yaml", j), mv([]Val{sv("restart"), sv(fmt.Sprintf("%d %d * * *", t.Minute(), t.Hour()))})))
+		}
+		cs = append(cs, Case{Kind: "seq", Stream: "fixed-loop", Files: files, Ops: []Op{{Op: "loop", Wall: mm*60 + 59, N: n}}})
+	}
 	// good behaviour: a bad file next to a good one, an added file, an edited file, a removed file
 	{
 		ops := ticks(1)
@@ -1819,6 +1970,14 @@ func main() {
 		runCase(self, scratch, &c)
 		out.Put(c)
 		k++
+	}
+	if thorough {
+		// the same loop on the real clock: three consecutive real minutes, a restart schedule that fires every minute
+		c := Case{Kind: "seq", K: 900100, Stream: "real-loop", Crashed: -1,
+			Files: []FileC{{Name: "d0.yaml", C: Content{V: func() *Val { v := mv([]Val{sv("restart"), sv("* * * * *")}); return &v }()}}},
+			Ops:   []Op{{Op: "loop", N: 3, Real: true}}}
+		runCase(self, scratch, &c)
+		out.Put(c)
 	}
 	nBoot := 80
 	if thorough {
